@@ -26,6 +26,9 @@ impl Interp {
         }).collect()).unwrap_or_else(|| vec![BuildpackReference::Other("heroku/procfile".into())]);
         c.buildpacks(bps);
         if let Some(t) = self.cfg["target_triple"].as_str() { c.target_triple(t); }
+        if self.cfg["release"] == true { c.cargo_profile(libcnb_test::CargoProfile::Release); }
+        // (the app dir may also be set after construction)
+        if !first { c.app_dir(app_dir); }
         if let Some(env) = self.cfg["build_env"].as_array() {
             // the first pair one by one, the rest in two batches: every way of adding merges
             let pairs: Vec<(String, String)> = env.iter().map(|kv| (kv[0].as_str().unwrap().to_string(), kv[1].as_str().unwrap().to_string())).collect();
@@ -50,7 +53,13 @@ impl Interp {
         let k = &self.cfg["container"];
         if let Some(e) = k["entrypoint"].as_str() { c.entrypoint(e); }
         if let Some(cmd) = k["command"].as_array() { c.command(cmd.iter().map(|x| x.as_str().unwrap().to_string()).collect::<Vec<_>>()); }
-        if let Some(env) = k["env"].as_array() { for kv in env { c.env(kv[0].as_str().unwrap(), kv[1].as_str().unwrap()); } }
+        if let Some(env) = k["env"].as_array() {
+            // the first pair through env(), the others through envs(): both add to what is there
+            let pairs: Vec<(String, String)> = env.iter().map(|kv| (kv[0].as_str().unwrap().to_string(), kv[1].as_str().unwrap().to_string())).collect();
+            let (single, rest) = pairs.split_at(pairs.len().min(1));
+            for (k, v) in single { c.env(k, v); }
+            c.envs(rest.to_vec());
+        }
         if let Some(ports) = k["ports"].as_array() { for p in ports { c.expose_port(p.as_u64().unwrap() as u16); } }
         if let Some(m) = k["mounts"].as_array() { for st in m { c.bind_mount(st[0].as_str().unwrap(), st[1].as_str().unwrap()); } }
         c
@@ -60,7 +69,11 @@ impl Interp {
             let Some(s) = self.next() else { return };
             match s["step"].as_str().unwrap() {
                 "shell" => { let _ = ctx.run_shell_command(self.cfg["shell"].as_str().unwrap_or("echo hi")); }
-                "sbom" => ctx.download_sbom_files(|_| ()),
+                "sbom" => ctx.download_sbom_files(|files| {
+                    // where the stand-in pack put the launch SBOM of buildpack x/y
+                    let p = files.path_for(libcnb_data::buildpack_id!("x/y"), libcnb_test::SbomType::Launch, libcnb_data::sbom::SbomFormat::CycloneDxJson);
+                    assert!(p.ends_with("layers/sbom/launch/x_y/sbom.cdx.json"), "HARNESS-OBSERVED: SbomFiles::path_for gave {p:?}");
+                }),
                 "start_container" => ctx.start_container(self.container_config(), |cc| self.container_body(cc)),
                 "rebuild" => {
                     ctx.rebuild(self.build_config(&s["outcome"], false), |ctx2| self.build_body(ctx2));
